@@ -162,15 +162,20 @@ static void String_Assign(var self, var obj) {
   }
 #endif
   
-  s->val = realloc(s->val, strlen(val) + 1);
+  /* `val` may point into `s->val` (assign(s, s), or a container re-assigning
+  ** one of its own keys): copy it before the old buffer is released. */
+  size_t n = strlen(val) + 1;
+  char* fresh = malloc(n);
   
 #if CELLO_MEMORY_CHECK == 1
-  if (s->val is NULL) {
+  if (fresh is NULL) {
     throw(OutOfMemoryError, "Cannot allocate String, out of memory!");
   }
 #endif
 
-  strcpy(s->val, val);
+  memcpy(fresh, val, n);
+  free(s->val);
+  s->val = fresh;
 }
 
 static char* String_C_Str(var self) {
